@@ -52,6 +52,8 @@ def run_shard(desc, ctx):
         run_case({'seed': [desc['seed'], desc['shard'], i]}, ctx)
     if desc['shard'] < 2:
         run_case({'seed': [desc['seed'], desc['shard'], 4242], 'huge': True}, ctx)
+    if desc['shard'] == 5:
+        run_case({'seed': [desc['seed'], desc['shard'], 131313], 'many': True}, ctx)
 
 
 def run_case(case, ctx, which='C11'):
@@ -65,6 +67,8 @@ def run_case(case, ctx, which='C11'):
 def build(case):
     rng = np.random.default_rng(case['seed'])
     k = int(rng.choice([1, 2, 2, 3, 3, 4]))
+    if case.get('many'):
+        k = 130                # more probes than a signed byte can number
     if case['seed'][2] % 40 == 17:
         k = int(rng.integers(9, 12))          # many probes (more than 8: orders that a hash-based container would not keep)
     n_samples = int(rng.integers(10, 40))
@@ -84,6 +88,7 @@ def build(case):
     own_probe_tables = bool(rng.random() < 0.25)       # the inputs carry a channel_probe.npy of their own (it says nothing about the merge)
     same_dat_name = [None, None, 'recording.bin', ['recording.bin']][int(rng.integers(0, 4))]     # the same raw file NAME in every folder
     other_rate = bool(rng.random() < 0.12)
+    header_variant = bool(rng.random() < 0.15)       # the value column spelled differently in every second probe (KSLabel / kslabel)
     tpl_dtypes = [['float32'], ['float32'], ['float64'], ['float32', 'float64'], ['float64', 'float32']][int(rng.integers(0, 5))]     # per-probe template precision
     spread = bool(rng.random() < 0.2)        # inputs whose coordinates are already spread along x (0.., 100.., 0.., 300..)
     if case.get('finite_only'):
@@ -118,7 +123,7 @@ def build(case):
         ids = np.unique(s.clusters)
         for t in TSVS:
             if pick(tsv_mode[t]):
-                rows = ['cluster_id\t%s' % t[8:-4]]
+                rows = ['cluster_id\t%s' % (t[8:-4] if not (p % 2 and header_variant) else t[8:-4].lower())]
                 # (sorters keep the rows of clusters that lost all their spikes during curation: ids inside the probe's range)
                 gap_ids = [c for c in range(int(ids.max())) if c not in set(ids.tolist())][:3] if rng.random() < 0.4 else []
                 for c in sorted(ids.tolist() + gap_ids):
@@ -158,7 +163,9 @@ def _run(case, ctx, d, which):
     for p, s in enumerate(specs):
         # the order given by the caller is the probe order: names whose lexicographic order differs (imec2 < imec10,
         # right/left/mid/aux), names with glob metacharacters, spaces and non-ASCII characters
-        if same_leaf:
+        if k > 12:
+            sd = os.path.join(d, 'p%03d' % (500 - p))          # many probes (in descending name order)
+        elif same_leaf:
             sd = os.path.join(d, 'imec%d' % ([2, 10, 11, 3] + list(range(20, 30)))[p], 'ks2')
         else:
             style = case['seed'][2] % 4
@@ -169,6 +176,12 @@ def _run(case, ctx, d, which):
             # table, shorter than the id range in use now
             np.save(os.path.join(sd, 'cluster_probes.npy'), np.zeros(max(1, int(s.clusters.max()) - 1), dtype=np.int32))
         subdirs.append(sd)
+    if case['seed'][2] % 11 == 5 and 2 <= k <= 3:
+        # the same folder listed twice (it is merged twice, as two probes)
+        subdirs.append(subdirs[0])
+        specs.append(specs[0])
+        k += 1
+        info['k'] = k
     out = os.path.join(d, 'merged')
     if case['seed'][2] % 6 == 4:
         out = d            # the probes live below the output directory (session/imec0, session/imec1 -> session)
@@ -354,7 +367,7 @@ def _oracle_c11(ctx, desc, f0, specs, out, m, order, probe_of, idx_in, before, a
                 V('cluster_metadata', '%s missing from the merged dataset' % t, file=t)
                 continue
             field, got = read_tsv(path)
-            ok = field == t[8:-4] and set(got) == set(exp)
+            ok = field.lower() == t[8:-4].lower() and set(got) == set(exp)
             if ok:
                 for c, v in exp.items():
                     try:
